@@ -4,7 +4,8 @@
    crypto, Keccak casing) are instantiated per case by tables the driver computed with those
    dependencies directly. *)
 From Coq Require Import String List NArith ZArith Bool Uint63.
-From Verif Require Import Lib.Bytes Generated.EventSchema Model.Events.
+From Verif Require Import Lib.Bytes Generated.EventSchema Model.Events Model.AppEvents.
+From Verif Require Model.App.
 Import ListNotations.
 
 (* Byte-string literals of the case files: [pk len [i1; ...; ik]] packs 7 bytes (big endian) per
@@ -47,11 +48,13 @@ Fixpoint pk (len : nat) (l : list int) : bytes :=
 
 (* t_case: address -> 40 bytes, 1 where Address.Hex() prints an upper-case letter
    t_pts : 96-byte chunk accepted by Uncompress+InG2 -> Compress of the point
-   t_keys: 65-byte string accepted by UnmarshalPubkey -> FromECDSAPub of the key *)
+   t_keys: 65-byte string accepted by UnmarshalPubkey -> FromECDSAPub of the key
+   t_ckeys: 33-byte compressed key accepted by DecompressPubkey -> FromECDSAPub of the key *)
 Record tables := mk_tables {
   t_case : list (bytes * bytes);
   t_pts : list (bytes * bytes);
-  t_keys : list (bytes * bytes)
+  t_keys : list (bytes * bytes);
+  t_ckeys : list (bytes * bytes)
 }.
 
 Definition alookup (t : list (bytes * bytes)) (k : bytes) : option bytes :=
@@ -135,19 +138,53 @@ Definition agree {A : Type} (eqb : A -> A -> bool) (m : outcome A) (r : result A
   | _, _ => false
   end.
 
+(* the application model's event as the exact ABCI event app.go emits: points are kept as the
+   96 bytes received (Compress of Uncompress of a valid encoding), the check-in key is
+   decompressed through the table *)
+Definition m_app_abci (t : tables) (e : App.event) : outcome abci_event :=
+  app_abci_event bytes bytes (cs_of t) (fun p => p) (fun k => k) (fun g => g)
+                 (fun k => match alookup (t_ckeys t) k with Some u => u | None => [] end) e.
+
+Fixpoint list_agree2 {A B : Type} (f : A -> B -> bool) (a : list A) (b : list B) : bool :=
+  match a, b with
+  | [], [] => true
+  | x :: a', y :: b' => f x y && list_agree2 f a' b'
+  | _, _ => false
+  end.
+
+Definition app_events_agree (t : tables) (evs : list App.event) (raw : list abci_event) : bool :=
+  list_agree2 (fun e a => match m_app_abci t e with Ok a' => abci_eqb a' a | _ => false end) evs raw.
+
+Definition app_response_agrees (t : tables) (r : App.response) (o : option (list abci_event)) : bool :=
+  match response_events r, o with
+  | Some evs, Some raw => app_events_agree t evs raw
+  | None, None => true
+  | _, _ => false
+  end.
+
 Inductive case :=
   (* x.MakeABCIEvent() observed as [obs] *)
 | CEnc (id : N) (t : tables) (x : ev) (obs : result abci_event)
   (* MakeEvent(a, h) observed as [obs] *)
 | CDec (id : N) (t : tables) (a : abci_event) (h : Z) (obs : result ev)
   (* makeEvents(h, l) observed as [obs] *)
-| CList (id : N) (t : tables) (h : Z) (l : list abci_event) (obs : result (list ev)).
+| CList (id : N) (t : tables) (h : Z) (l : list abci_event) (obs : result (list ev))
+  (* a history of ABCI calls on the real application: the raw events of every response
+     (None = the call panicked) *)
+| CApp (id : N) (t : tables) (g : App.genesis) (calls : list App.call)
+       (obs : list (option (list abci_event))).
 
 Definition check_case (c : case) : list N :=
   match c with
   | CEnc id t x obs => if agree abci_eqb (m_make_abci t x) obs then [] else [id]
   | CDec id t a h obs => if agree ev_eqb (m_make_event t a h) obs then [] else [id]
   | CList id t h l obs => if agree (list_eqb ev_eqb) (m_make_events t h l) obs then [] else [id]
+  | CApp id t g calls obs =>
+      match App.init_chain g with
+      | None => [id]
+      | Some s0 =>
+          if list_agree2 (app_response_agrees t) (snd (App.run App.enum_id s0 calls)) obs then [] else [id]
+      end
   end.
 
 Definition mismatches (cs : list case) : list N := flat_map check_case cs.
